@@ -436,7 +436,15 @@ class DocGen:
         contents = []
         for _ in range(npages):
             W, H = rng.choice([(612, 792), (612, 792), (300, 400), (842, 595)])
-            res, content = self.make_scope(0, W, H)
+            if rng.random() < 0.08:
+                # a page that shows only blanks (and perhaps a path): it is analysed, but no text box comes out of it
+                res = {"Font": {"F1": font_type1("Helvetica", Encoding=N("WinAnsiEncoding"))}}
+                content = b"BT /F1 12 Tf %d %d Td (   ) Tj 0 -30 Td ( ) Tj ET\n" % (rng.randint(20, 200), rng.randint(100, 300))
+                if rng.random() < 0.5:
+                    content += self.block_path(W, H) + b"\n"
+                self.feat["blank_page"] = self.feat.get("blank_page", 0) + 1
+            else:
+                res, content = self.make_scope(0, W, H)
             contents.append(content)
             pd: Dict[str, Any] = {"Type": N("Page"), "Parent": pages_ref, "MediaBox": rng.choice([[0, 0, W, H], [0, 0, W, H], [10, 20, W + 10, H + 20]]),
                                   "Resources": res, "Contents": doc.add(Stream({}, content))}
